@@ -5,7 +5,6 @@ import (
 	"encoding/json"
 	"math/big"
 	"reflect"
-	"strconv"
 	"strings"
 
 	"github.com/formancehq/stack/libs/go-libs/metadata"
@@ -210,7 +209,12 @@ func unmarshalTargetID(targetType string, data json.RawMessage) (any, error) {
 		id = ""
 		err = json.Unmarshal(data, &id)
 	case strings.ToUpper(MetaTargetTypeTransaction):
-		id, err = strconv.ParseUint(string(data), 10, 64)
+		// transaction ids are *big.Int everywhere else: they are not bound to 64 bits
+		txID, ok := big.NewInt(0).SetString(string(data), 10)
+		if !ok {
+			return nil, errors.Errorf("invalid transaction id: %s", string(data))
+		}
+		id = txID
 	default:
 		panic("unknown type")
 	}
